@@ -18,10 +18,13 @@ META["explanation"] = (
     "of stale payload-free tokens, idle workers) one imap / imap_unordered call with n<=N items yields exactly its own "
     "results, cannot deadlock, is bounded (unwinding query), and ends in a state satisfying the invariant again.")
 META["bounds"] = {"quick": {"workers": "1", "chunk_size": "1", "items_per_call": "<=1", "stale_tokens": "<=1 (imap_unordered), 0 (imap)", "stale_data_cnt": "0..3"},
-                  "thorough": {"workers": "1,2", "chunk_size": "1", "items_per_call": "<=1 all schedules; <=2 with at most 2 pre-emptions", "stale_tokens": "<=1", "stale_data_cnt": "0..3"}}
+                  "thorough": {"workers": "1,2", "chunk_size": "1", "items_per_call": "<=1 all schedules; <=2 with at most 2 pre-emptions", "stale_tokens": "<=1", "stale_data_cnt": "0..3",
+                               "FactoryFunctorPool": "1 worker with quota 1 + 1 spare: n<=1 for all schedules with <=3 pre-emptions; n<=2 (spare without quota) with <=2 pre-emptions"}}
 META["outside_bounds"] = list(c01.META["outside_bounds"]) + [
-    "FactoryFunctorPool with max_chunks_per_worker: encoded (thorough tier, 1 worker + 1 spare, quota 1) but only "
-    "counterexample search finishes within the budget; the refutation is reported INCONCLUSIVE (bug-hunting only)",
+    "FactoryFunctorPool with max_chunks_per_worker: encoded in the thorough tier (1 worker + 1 spare, quota 1) and decided under a "
+    "context bound (<=3 pre-emptions for n<=1, <=2 for n<=2); without the context bound only the counterexample search finishes "
+    "within the budget and that copy of the configuration is reported INCONCLUSIVE; more than one replacement and the inter-call "
+    "induction for the factory pool are outside",
     "inter-call states in which a worker still holds the results lock after its last put (it only releases the lock)"]
 
 
@@ -39,11 +42,16 @@ def configs(tier):
                 # without the context bound the refutations do not finish within the budget: the second copy of the
                 # configuration is bug-hunting only (INCONCLUSIVE on a correct tree).
                 {"kind": "factory", "workers": 1, "cs": 1, "nmax": 1, "quota": 1, "spares": 1, "context_bound": 3, "Ks": (90, 104)},
-                {"kind": "factory", "workers": 1, "cs": 1, "nmax": 1, "quota": 1, "spares": 1, "fixed_K": 84, "timeout_s": 300}]
+                {"kind": "factory", "workers": 1, "cs": 1, "nmax": 1, "quota": 1, "spares": 1, "fixed_K": 84, "timeout_s": 300},
+                # two chunks: the initial worker (quota 1) retires after the first chunk while the second one is still queued and
+                # the feeding may already be over; the spare has no quota (one replacement, 5 threads). All schedules with at
+                # most 2 pre-emptions; *measured* 4-8 min per query on a loaded machine (seed C03-m2 is found here as a deadlock).
+                {"kind": "factory", "workers": 1, "cs": 1, "nmax": 2, "quota": 1, "spares": 1, "spares_unlimited": True,
+                 "context_bound": 2, "Ks": (110, 130), "timeout_s": 1500}]
     return out
 
 
 def run(tier, seed):
     Ks = (48, 58, 70) if tier == "quick" else (52, 66, 80, 100)
     return runner.run_property("C03", tier, seed, "harness.pools_common", configs(tier), ("assert", "deadlock"), Ks,
-                               900 if tier == "quick" else 1200, META, wall_limit=1700 if tier == "quick" else 5400)
+                               900 if tier == "quick" else 1200, META, wall_limit=1700 if tier == "quick" else 6000)
